@@ -14,7 +14,7 @@
 //!     refused, the offender ends with a runtime error, `close_resource` only for resources of
 //!     processes reported complete in that very message, never while the owner is alive, every
 //!     resource of a reported process closed, no repeated close; at quiescence every resource still
-//!     open whose owner has terminated is classified (F10 = never awaited: known finding).
+//!     open whose owner has terminated is a violation (F10 / F10b, repaired in /repo 5cb2956: regressions).
 mod backend;
 mod scenario;
 use backend::*;
@@ -397,7 +397,12 @@ fn run_case(c: &Case, r: &mut Rng, model: &mut Model) -> Outcome {
         }
     }
     // resources still open whose owner has terminated
-    let open: Vec<ResourceId> = sh.lock().open.iter().copied().collect();
+    let mut open: Vec<ResourceId> = sh.lock().open.iter().copied().collect();
+    if !sim.idle() {
+        // cut short by the step budget with messages still in flight: exit reports may be undelivered
+        out.counters.push("end:not-quiescent(leak check skipped)".into());
+        open.clear();
+    }
     for rid in open {
         let Some(o) = tr.owner.get(&rid).copied() else {
             out.problems.push(("resource=open-without-owner".into(), format!("resource {rid} is open but the oracle knows no owner"), true));
@@ -414,7 +419,7 @@ fn run_case(c: &Case, r: &mut Rng, model: &mut Model) -> Outcome {
                 out.f10 += 1;
                 out.problems.push((
                     "resource=never-awaited-owner-not-closed".into(),
-                    format!("F10: resource {rid} still open at quiescence; its owner, process {o}, terminated ({st:?}) and was never awaited"),
+                    format!("resource {rid} still open at quiescence although its owner, process {o}, has terminated ({st:?}; never awaited) — F10 (repaired in 5cb2956) is back"),
                     true,
                 ));
             }
@@ -423,7 +428,7 @@ fn run_case(c: &Case, r: &mut Rng, model: &mut Model) -> Outcome {
                 if acq > *when {
                     out.problems.push((
                         "resource=arrived-after-owner-reported-not-closed".into(),
-                        format!("F10 variant: resource {rid} reached process {o} (event {acq}) after its completion had been reported (event {when}); never closed"),
+                        format!("resource {rid} reached process {o} (event {acq}) after its termination had been reported (event {when}) and was never closed — F10b (repaired in 5cb2956) is back"),
                         true,
                     ));
                 } else {
@@ -977,19 +982,13 @@ fn account_cleanup(
     *ci_ref = ci;
 }
 
-/// `Event::ProcessExited { process_id }` (repair of F10), recognised through its Debug form so that
-/// this harness builds against trees with and without the variant.
+/// `Event::ProcessExited { process_id }`: the worker's report that a process has terminated (repair
+/// of F10, /repo 5cb2956).
 fn exited_pid(e: &Event<E>) -> Option<ProcessId> {
-    if matches!(
-        e,
-        Event::SpawnAction { .. } | Event::DeliverAction { .. } | Event::ProcessResults { .. } | Event::EffectRequest { .. } | Event::AwaitAction { .. }
-    ) {
-        return None;
+    match e {
+        Event::ProcessExited { process_id } => Some(*process_id),
+        _ => None,
     }
-    let d = format!("{e:?}");
-    let rest = d.strip_prefix("ProcessExited")?;
-    let digits: String = rest.chars().filter(|c| c.is_ascii_digit()).collect();
-    digits.parse().ok()
 }
 
 /// Was `rid` open when the Execute just before `ci` ran? (an async kind on a closed id fails at
